@@ -70,8 +70,13 @@ def run_interop_impl(case):
     with warnings.catch_warnings():
         warnings.simplefilter("ignore")
         enc = InteropEncapsulator()
-        enc.encapsulate(S.PROTO[case.get("ty", 0)])
-        enc.set_id(case["nid"])
+        if case.get("id_first"):
+            # both orders are legal: the identifier may be configured before the protocol is wrapped
+            enc.set_id(case["nid"])
+            enc.encapsulate(S.PROTO[case.get("ty", 0)])
+        else:
+            enc.encapsulate(S.PROTO[case.get("ty", 0)])
+            enc.set_id(case["nid"])
         try:
             for cb in case["cbs"]:
                 enc.set_timestamp(cb["t"])
